@@ -57,7 +57,8 @@ LoggedFutRes(e) ==
    err |-> IF Has(e.res, "err") THEN e.res.err ELSE "none"]
 
 ModelStep(s, e) ==
-  CASE e.ev = "rpc" /\ ~Has(e, "skipped") -> RunCaller(StartRpc(s, e.good))
+  CASE e.ev = "rpc" /\ ~Has(e, "skipped") /\ Has(e, "close") -> RunCaller(StartClose(s))
+    [] e.ev = "rpc" /\ ~Has(e, "skipped") -> RunCaller(StartRpc(s, e.good))
     [] e.ev = "pollc" -> RunCaller(s)
     [] e.ev = "poll" /\ e.res.state # "absent" -> RunFut(s, e.t)
     [] e.ev = "drop" /\ ~Has(e, "skipped") -> DropFut(s, e.t)
